@@ -35,6 +35,7 @@ type DropIn struct {
 type Scenario struct {
 	Entries []Entry  `json:"entries"`
 	DropIns []DropIn `json:"dropins"`
+	Stale   bool     `json:"stale"` // the runtime's own environment carries NRI_PLUGIN_* variables
 }
 
 const regTimeout = 400 * time.Millisecond
@@ -114,8 +115,9 @@ func one(scn int, sc Scenario, probe string, w *rec.Writer) error {
 	}
 	for _, e := range sc.Entries {
 		switch e.Kind {
-		case "exec":
-			if err := copyFile(probe, filepath.Join(pdir, e.Name), 0o755); err != nil {
+		case "exec", "execu", "execg", "execo":
+			mode := map[string]os.FileMode{"exec": 0o755, "execu": 0o744, "execg": 0o654, "execo": 0o645}[e.Kind]
+			if err := copyFile(probe, filepath.Join(pdir, e.Name), mode); err != nil {
 				return err
 			}
 			b, _ := json.Marshal(map[string]string{"behaviour": e.Behaviour, "reports": reports})
@@ -143,6 +145,12 @@ func one(scn int, sc Scenario, probe string, w *rec.Writer) error {
 		adaptation.WithSocketPath(filepath.Join(root, "nri.sock")))
 	if err != nil {
 		return err
+	}
+	if sc.Stale {
+		for k, v := range map[string]string{api.PluginNameEnvVar: "leftover", api.PluginIdxEnvVar: "99", api.PluginSocketEnvVar: "7"} {
+			os.Setenv(k, v)
+			defer os.Unsetenv(k)
+		}
 	}
 	t0 := time.Now()
 	serr := ad.Start()
